@@ -461,6 +461,52 @@ def rule_scan_exit_twins(ctx: Ctx, clause: str = "C11.11") -> RuleResult:
     return rr
 
 
+def rule_utf8_scan_bound(ctx: Ctx, clause: str = "C11.12") -> RuleResult:
+    """move_next_char / move_prev_char step over the continuation bytes of one UTF-8 character.  A UTF-8 sequence
+    has up to 4 bytes (lead + 3 continuation bytes).  The scans need no distance bound at all (the text ends the
+    forward scan, a non-continuation byte the backward one); if one is written, it must leave room for all 4 bytes:
+    forward `o < start + k` needs k >= 4, backward `o > end - k` needs k >= 4."""
+    from ..rules.defuse import DefUse
+    from ..rules.util import linear
+
+    p = ctx.p
+    rr = RuleResult("TAB", clause, "a distance bound on the UTF-8 continuation-byte scans of move_next_char / move_prev_char leaves room for a 4-byte sequence", floor=2)
+    for q, anchor_i, sign in ((f"{SU}.move_next_char", 1, +1), (f"{SU}.move_prev_char", 2, -1)):
+        fi = p.func(q)
+        du = DefUse(fi)
+        anchor = fi.params[anchor_i]
+        loops = [n for n in du.cfg.nodes if n.kind == "test" and isinstance(n.stmt, ast.While) and "0xC0" in ast.unparse(n.stmt.test).replace("0xc0", "0xC0").replace("192", "0xC0")]
+        rr.inst(short(fi), True, {"function": short(fi), "utf8_scan_loops": len(loops)})
+        if not loops:
+            raise AnalysisError(f"{q}: the UTF-8 continuation-byte loop (text[o] & 0xC0 == 0x80) was not found")
+        seen = set()
+        for n in loops:
+            if id(n.stmt) in seen:
+                continue
+            seen.add(id(n.stmt))
+            for c in ast.walk(n.stmt.test):
+                if not (isinstance(c, ast.Compare) and len(c.ops) == 1 and isinstance(c.ops[0], (ast.Lt, ast.LtE, ast.Gt, ast.GtE)) and isinstance(c.left, ast.Name)):
+                    continue
+                bound = du.expand(c.comparators[0], n)
+                # the candidates inside min(...) / max(...) or the expression itself
+                cands = bound.args if isinstance(bound, ast.Call) and isinstance(bound.func, ast.Name) and bound.func.id in ("min", "max") else [bound]
+                for b in cands:
+                    L = linear(b)
+                    if not L or L.get(anchor) != 1 or set(L) - {anchor, ""}:
+                        continue
+                    k = L.get("", 0)
+                    incl = isinstance(c.ops[0], (ast.LtE, ast.GtE))
+                    # forward: the scan must be able to pass start+1..start+3 and stop at start+4: `<` needs k >= 4, `<=` k >= 3
+                    # backward: it must be able to pass end-1..end-3 and stop at end-4:        `>` needs k <= -4, `>=` k <= -3
+                    ok = (k + (1 if incl else 0)) >= 4 if sign > 0 else (k - (1 if incl else 0)) <= -4
+                    if k == 0:
+                        continue  # the plain range limit (start/end of the text)
+                    rr.inst(f"{short(fi)}:{norm(c, 40)}", True, {"bound": norm(b, 40), "constant": k})
+                    if not ok:
+                        rr.add(finding("TAB", fi, n.stmt, f"the continuation-byte scan is bounded by `{norm(b, 40)}`: a 4-byte UTF-8 character (lead + 3 continuation bytes, U+10000 and above) does not fit, so the step ends inside the character and next/previous no longer agree", construct=f"utf8 scan bounded by {norm(b, 40)}"))
+    return rr
+
+
 def run(ctx: Ctx):
     p = ctx.p
     loops = [f.qualname for f in p.modules[SU].functions if any(isinstance(n, ast.While) for n in f.own_nodes())]
@@ -476,12 +522,17 @@ def run(ctx: Ctx):
         rule_trim_frame(ctx),
         rule_ordinal_range(ctx),
         rule_scan_exit_twins(ctx),
+        rule_utf8_scan_bound(ctx),
     ]
 
 
 _S = "urwid/str_util.py"
 _U = "urwid/util.py"
 MUTANTS = [
+    Mut("next-char-scan-three-bytes", _S, "move_next_char", "        while o < end_offs and text[o] & 0xC0 == 0x80:", "        limit = min(end_offs, start_offs + 3)\n        while o < limit and text[o] & 0xC0 == 0x80:", "TAB|str_util.move_next_char"),
+    Mut("prev-char-scan-three-bytes", _S, "move_prev_char", "        while text[o] & 0xC0 == 0x80:", "        stop = max(start_offs, end_offs - 3)\n        while o > stop and text[o] & 0xC0 == 0x80:", "TAB|str_util.move_prev_char"),
+    Mut("twin-next-char-scan-four-bytes", _S, "move_next_char", "        while o < end_offs and text[o] & 0xC0 == 0x80:", "        limit = min(end_offs, start_offs + 4)\n        while o < limit and text[o] & 0xC0 == 0x80:", twin=True),
+    Mut("twin-prev-char-scan-four-bytes", _S, "move_prev_char", "        while text[o] & 0xC0 == 0x80:", "        stop = max(start_offs, end_offs - 4)\n        while o > stop and text[o] & 0xC0 == 0x80:", twin=True),
     Mut("str-scan-stops-at-target-column", _S, "calc_string_text_pos", "        width = get_char_width(text[idx])\n", "        if cols >= pref_col:\n            return idx, cols\n        width = get_char_width(text[idx])\n", "SIB|str_util.calc_string_text_pos"),
     Mut("four-byte-form-unbounded", _S, "decode_one", "if 0x10000 <= (o := ((b1 & 0x07) << 18) | ((b2 & 0x3F) << 12) | ((b3 & 0x3F) << 6) | (b4 & 0x3F)) <= 0x10FFFF:", "if (o := ((b1 & 0x07) << 18) | ((b2 & 0x3F) << 12) | ((b3 & 0x3F) << 6) | (b4 & 0x3F)) >= 0x10000:", "RANGE|str_util.decode_one"),
     Mut("twin-four-byte-bound-strict", _S, "decode_one", "<= 0x10FFFF:", "< 0x110000:", twin=True),
